@@ -347,20 +347,28 @@ PROPS["C01"] = {
     "level_note": "Purity of allow-listed primitives trusted; engine and z3 trusted.",
 }
 PROPS["C02"] = {
-    "contracts": [],
+    "contracts": ["contracts/C02_walker.py"],
     "level": "other",
     "extra": [{"name": "C02/tables[operator tables = language reference; call passes all arguments]", "kind": "scan", "cmd": ["python3-vt", "pyvc/scan_c01.py", "C02"]},
               {"name": "C02/bounded[grammar depth 2 vs restricted CPython eval]", "kind": "bounded", "tiers": ("quick",), "cmd": ["/venv/bin/python", "native/c01_bounded.py", "C02", "2"]},
               {"name": "C02/bounded[grammar depth 3 vs restricted CPython eval]", "kind": "bounded", "tiers": ("thorough",), "timeout": 3000, "cmd": ["/venv/bin/python", "native/c01_bounded.py", "C02", "3"]}],
-    "assumptions": ["the walker-vs-Python-semantics proof by structural induction (DESIGN section 3, C02) is NOT built: the engine has no model of evaluated user values rich enough to state "
-                    "E(node) = value; what is discharged deductively are the finite table clauses (each AST operator class maps to the operator.* function the language reference assigns) and "
-                    "the structural clause that a call evaluates and passes every positional and keyword argument and never returns a non-callable entry for a call",
-                    "agreement with Python is otherwise a BOUNDED differential check (grammar-directed enumeration vs CPython eval restricted to the same allow-listed names)",
-                    "text-level pathway steps (boolean-literal rewrite, JSON-first parsing) relate external grammars: recorded known findings"],
-    "trusted_base": ["CPython eval as the reference semantics"],
-    "explanation": "Table clauses and the call-argument clause over the real source (3 named obligations) + bounded differential testing against CPython; two text-level disagreements are recorded known findings.",
-    "level_text": "Mostly bounded; finite table clauses deductive.",
-    "level_note": "No inductive proof of the walker against a spec semantics.",
+    "assumptions": ["the walker is proved MODULARLY, one node class per contract variant: assuming the recursive calls return the Python value of the children (the function "
+                    "collaborator pyeval = the walker's own contract at its recursive call sites), the value returned for Constant / BinOp (7 operators) / UnaryOp (-, +, not) / "
+                    "IfExp / Name / Call / List / Tuple / BoolOp / Compare (6 operators, chains) is the one the language reference assigns in terms of the children's values; "
+                    "Attribute / Subscript / Lambda nodes are refused",
+                    "operand values are opaque: Python's operators are deterministic partial functions of their operands (uninterpreted any_<Op> with a success predicate), so the proof is "
+                    "about the DISPATCH (right operator, operands, order, every argument passed, deciding operand returned), not about arithmetic itself (that is CPython's)",
+                    "node classes with child lists are proved for fixed small arities only (Call: 0-3 positional x 0-1 keyword; List/Tuple: 0-3; BoolOp: 2-3; Compare chains: 1-2 operators): "
+                    "bounded in arity, unbounded in values",
+                    "the allow-list table is an arbitrary map name -> callable in the Call variants; its actual entries are the table obligations of the scan",
+                    "the structural induction over the tree (children's values are correct => node's value is correct => whole tree) is the standard argument and is not mechanised",
+                    "cross-call state (e.g. memoisation across pathways), the pathway text rewrites and JSON-first parsing are outside these contracts: bounded differential check vs CPython; "
+                    "two text-level disagreements are recorded known findings"],
+    "trusted_base": ["CPython eval as the reference semantics of the bounded differential check"],
+    "explanation": "Per-node-class contracts of the walker against Python's evaluation rules (dispatch level, arity-bounded for child lists) + table clauses over the real source + "
+                   "bounded differential testing against CPython; two text-level disagreements are recorded known findings.",
+    "level_text": "Dispatch of every allowed node class deductive (arity-bounded); arithmetic itself and cross-call state bounded.",
+    "level_note": "The induction over the tree is not mechanised.",
 }
 
 PROPS["C12"] = {
